@@ -128,6 +128,7 @@ func c19Case(rep *verifkit.Report, ci int, point string, delayMS int, seed int64
 		return res
 	}
 	defer peer.shutdown()
+	peer.sendAddrs = true
 	uni := verifkit.NewUniverse(r, 6)
 	sub := randB(r, 20)
 	store := verifkit.NewStore(false)
@@ -332,8 +333,12 @@ func c19Case(rep *verifkit.Report, ci int, point string, delayMS int, seed int64
 		if len(got) != len(wantUnconf) {
 			rep.Finding(ci, "C19/unconfirmed-not-persisted/"+point, fmt.Sprintf("stopped node tracked %d unconfirmed transactions, the storage holds %d", len(wantUnconf), len(got)), nil)
 		}
-		if _, ok := store.Get("spynode/peers"); !ok && point != "refused" && wantTip >= 0 {
-			rep.Finding(ci, "C19/peers-not-persisted/"+point, "no peers file after Stop", nil)
+		// peer data: what a fresh node loads equals what the stopped node knew (a node stopped
+		// before it learned of any peer has nothing to save)
+		if have, loaded := e.node.peers.Count(), e2.node.peers.Count(); have != loaded {
+			rep.Finding(ci, "C19/peers-not-persisted/"+point, fmt.Sprintf("the stopped node knew %d peer addresses, the storage holds %d", have, loaded), nil)
+		} else if have > 0 {
+			rep.Event("peer_addresses_persisted_checked", 1)
 		}
 	}
 	return res
